@@ -1,16 +1,30 @@
 """C01 — canonicalization never loses or invents visible content."""
 import json, re
-import core, mml, canon_run
+import core, mml, canon_run, clean_run
 from canon_run import N
+
+# fixed trees of the clean-up correspondence: past disagreements first (038bf38: a script over an mrow that lost all its children)
+CLEAN_CORPUS = [
+    N("math", [N("msub", [N("mrow", [N("mrow", [N("mrow")])], attrs={"intent": "f"}), N("mi", text="b")])]),
+    N("math", [N("msubsup", [N("mrow", [N("mrow", [N("mphantom", [N("mn", text="2")])], attrs={"intent": "foo($x)"})]), N("mrow"), N("mi", text="q")])]),
+    N("math", [N("mrow", [N("mi", text="x"), N("mphantom", [N("mi", text="y")]), N("mn", text="-5")])]),
+    N("math", [N("mstyle", [N("mtext", text="----"), N("mo", text="..."), N("mo", text="::")])]),
+    N("math", [N("msqrt", []), N("mpadded", []), N("mtable", [N("mtr", [N("mtd", [])])])]),
+]
 
 
 def run(ctx):
     pr, im, mo = canon_run.standard(ctx, "C01", "", [
+        "modelled, not verified: the structural skeleton of clean_mathml and trim_element (MC.Clean, MC/Model/Clean.lean: empty-element rules, token arms that look at the token alone, "
+        "mstyle / mpadded / mphantom, the children loop, single-child mrow lifts, merge_whitespace, empty-script elimination, clean_msubsup, assure_nary_tag_has_one_child) -- clean_conserves "
+        "(MC/Props/C01Clean.lean) is proved about it for EVERY tree and parent context, and it is tied to the library on every run by hook H7 (verif_clean_only: the clean-up phase alone) on "
+        "generated trees inside the fragment guard (names + token text + intent presence compared); the sibling-dependent arms, mfenced, semantics, mmultiscripts, the second cleaning pass "
+        "after a script collapses to its child, number folding and the chemistry heuristics are NOT in the skeleton",
         "modelled, not verified: the re-bracketing pass (MC.Rows.parseRow, tied to the implementation by the C03 correspondence run) -- row_conserves is proved about it; "
         "clean_mathml, the chemistry pass and trim_element are NOT modelled: for them the property is decided on the implementation, tree by tree, by the Lean checker MC.Spec.Canon.conserves",
         "the documented normalizations are the character homomorphism MC.Spec.Canon.expand followed by collapse (hyphen runs); expandChar_nil_iff and collapse_filter bound what they can hide: "
         "only white space, the four invisible operators and the length of a hyphen run",
-        "python's xml.etree parser reads both the input and the returned string"])
+        "python's xml.etree parser reads both the input and the returned string"], extra_modules=["MC.Props.C01Clean"])
     rng = ctx.rng
     n = 6000 if ctx.tier == "quick" else 150000
     results = canon_run.run_stream(ctx, im, mo, n, canon_run.LOCALES)
@@ -39,6 +53,11 @@ def run(ctx):
             tb.append(item)
         for item, c in zip(keep, mo.run(creqs)):
             item["check"] = c.get("v") if c.get("r") == "ok" else None
+    # clean-up skeleton vs the library's clean-up phase (hook H7)
+    cl = clean_run.run(ctx, im, mo, 3000 if ctx.tier == "quick" else 60000, extra=CLEAN_CORPUS)
+    cl_in = [r for r in cl if r.get("in_guard")]
+    cl_dis = [r for r in cl_in if not r["agree"]]
+    cl_dis.sort(key=lambda r: len(r["xml"]))
     n_ok = canon_run.summarize(ctx, results + tb)
     oracle_fail = []
     n_checked = n_changed = 0
@@ -65,8 +84,12 @@ def run(ctx):
             if inp and out:
                 c = mo.run([{"op": "canon_check", "inp": inp, "out": out}])[0].get("v") or {}
                 f["visible_in"], f["visible_out"] = c.get("vis_in"), c.get("vis_out")
-    im.close()
-    mo.close()
+    def im2_run(pre2, xml):
+        return im.run([{"op": "session"}] + pre2 + [{"op": "set_mathml", "xml": xml}])[-1]
+
+    def mo2_run(req):
+        r = mo.run([req])[0]
+        return r.get("v") if r.get("r") == "ok" else None
     ctx.coverage.update({
         "evaluations": n_checked, "distinct_nontrivial": n_changed,
         "rule": "generated presentation trees (every element kind of the property, empty and degenerate children in every position, mmultiscripts / mfenced attribute variants, token text from a pool "
@@ -75,14 +98,49 @@ def run(ctx):
                 "normalised, inserted or removed)",
         "textbook_trees": len(tb),
         "impl_vs_oracle_failures": [{k: v for k, v in f.items() if k != "lines"} for f in oracle_fail[:8]], "n_oracle_failures": len(oracle_fail),
-        "model_vs_impl_disagreements": [], "n_disagreements": 0,
-        "correspondence_note": "the modelled pass (parseRow) is compared with the implementation by the C03 check; this check applies the Spec checker to the implementation only",
+        "model_vs_impl_disagreements": [{"xml": r["xml"], "impl": r["impl_shape"] if r["impl_shape"] is not None else r["impl"], "model": r["model_shape"]} for r in cl_dis[:8]],
+        "n_disagreements": len(cl_dis),
+        "clean_correspondence": {"trees": len(cl), "in_fragment": len(cl_in), "out_of_fragment": len(cl) - len(cl_in),
+                                 "out_of_fragment_reasons": clean_run.reason_counts(cl),
+                                 "changed_by_clean_up": sum(1 for r in cl_in if r.get("model_shape") != r.get("shape_in")),
+                                 "removed_something": sum(1 for r in cl_in if "mphantom" in r["xml"] or "<mrow></mrow>" in r["xml"]),
+                                 "agree_out_of_fragment": sum(1 for r in cl if not r.get("in_guard") and r.get("agree"))},
+        "correspondence_note": "the clean-up skeleton (MC.Clean) is compared with hook H7 here; the re-bracketing pass (parseRow) is compared with the implementation by the C03 check; "
+                               "the Spec checker is applied to the implementation's final output on every tree",
     })
     for f in oracle_fail:
         ctx.violation("implementation violates C01: " + json.dumps({k: v for k, v in f.items() if k not in ("lines", "out")}, ensure_ascii=False)[:500],
                       {"kind": "impl-vs-oracle", "case": {k: v for k, v in f.items() if k != "lines"}, "lines": f["lines"]}, tag="oracle", signature={"kind": "c01-oracle", "xml": f["xml"]})
+    if cl_dis and not ctx.violations:
+        # the skeleton and the library part ways inside the fragment: look for an input on which the property itself fails
+        found = False
+        for r in cl_dis[:40]:
+            pre2 = [{"op": "rules_dir", "dir": core.rules_dir()}]
+            rep = im2_run(pre2, r["xml"])
+            if rep.get("r") == "panic" or rep.get("r") == "abort":
+                ctx.violation("implementation violates C01 (no tree is returned: panic): " + json.dumps({"xml": r["xml"], "reply": rep}, ensure_ascii=False)[:400],
+                              {"kind": "impl-panic", "case": {"xml": r["xml"], "reply": rep}, "lines": pre2 + [{"op": "set_mathml", "xml": r["xml"]}]}, tag="oracle",
+                              signature={"kind": "c01-oracle", "xml": r["xml"]})
+                found = True
+                break
+            if rep.get("r") == "ok":
+                inp, out = canon_run.xml_to_json(r["xml"]), canon_run.xml_to_json(rep["v"])
+                c = (mo2_run({"op": "canon_check", "inp": inp, "out": out}) or {})
+                if c and not c.get("conserves", True):
+                    ctx.violation("implementation violates C01: " + json.dumps({"why": "visible content differs", "xml": r["xml"], "visible_in": c.get("vis_in"), "visible_out": c.get("vis_out")}, ensure_ascii=False)[:500],
+                                  {"kind": "impl-vs-oracle", "case": {"xml": r["xml"], "out": rep["v"]}, "lines": pre2 + [{"op": "set_mathml", "xml": r["xml"]}]}, tag="oracle",
+                                  signature={"kind": "c01-oracle", "xml": r["xml"]})
+                    found = True
+                    break
+        if not found:
+            r = cl_dis[0]
+            ctx.violation("correspondence MC.Clean (clean-up skeleton) vs verif_clean_only no longer holds on %d of %d in-fragment trees, e.g. %s" % (len(cl_dis), len(cl_in), r["xml"][:300]),
+                          {"kind": "correspondence", "name": "MC.Clean.cleanMath vs hook H7 verif_clean_only", "input": r["xml"], "impl": r["impl_shape"] if r["impl_shape"] is not None else r["impl"],
+                           "model": r["model_shape"], "lines": r["lines"]}, tag="correspondence", no_input=True)
     if not pr["ok"] and not ctx.violations:
         ctx.violation("theorem(s) no longer check: " + ", ".join(pr["failed"]), {"kind": "theorem", "theorems": pr["failed"], "lean_output": pr["output"][-1500:]}, tag="theorem", no_input=True)
+    im.close()
+    mo.close()
 
 
 def replay(ctx, path):
